@@ -349,10 +349,16 @@ def gen_scale_opts(rng, terms):
         return o
     o["scalar"] = None
     for _ in range(30):
-        br = rng.choice(["1", "2", "1/2", "4", ["-1", "2"], ["-2", "1/2"], ["-4", "4"]])
-        prr = rng.choice([None, None, "1", "2", "1/4", ["-2", "1"], ["-1", "4"]])
+        # proper ranges, improper ones (one-sided, inverted) and ranges with a zero bound (ZeroDivisionError)
+        br = rng.choice(["1", "2", "1/2", "4", ["-1", "2"], ["-2", "1/2"], ["-4", "4"], "1", "2",
+                         ["1", "2"], ["-2", "-1"], ["1", "-1"], ["2", "-4"], ["0", "1"], ["-1", "0"], "0"])
+        prr = rng.choice([None, None, None, "1", "2", "1/4", ["-2", "1"], ["-1", "4"], ["1", "4"], ["-4", "-1"],
+                          ["1", "-2"], ["0", "2"]])
         lr = parse_range(br)
         pr = parse_range(prr) if prr is not None else lr
+        if 0 in lr or 0 in pr:
+            o["bias_range"], o["poly_range"] = br, prr
+            return o
         inv = norm_inv(terms, lr, pr, ign)
         if inv == 0 or is_pow2(inv):
             o["bias_range"], o["poly_range"] = br, prr
@@ -906,6 +912,19 @@ def frac_or_pair(x):
     return float(Fraction(x))
 
 
+def rng_term(x):
+    if isinstance(x, list):
+        return f"(RPair {cq(Fraction(x[0]))} {cq(Fraction(x[1]))})"
+    return f"(RNum {cq(Fraction(x))})"
+
+
+def scale_raise_term(l, raised):
+    sc = copt(cq(F(l["scalar"]))) if l.get("scalar") is not None else "None"
+    br = l.get("bias_range", "1") or "1"
+    prt = "None" if l.get("poly_range") is None else f"(Some {rng_term(l['poly_range'])})"
+    return f"(CScaleRaise {sc} {rng_term(br)} {prt} {cbool(raised)})"
+
+
 def run_poly(c):
     entry = c["entry"]
     vt = c["poly"]["vartype"]
@@ -968,6 +987,12 @@ def run_poly(c):
         ss = call()
     except Exception as e:
         feats["raised"] = type(e).__name__ + ": " + str(e)[:80]
+        if isinstance(e, ZeroDivisionError):
+            # BinaryPolynomial.normalize divides by every bound of the ranges: the model says when
+            sl = [l for l in c["layers"] if l["t"] == 'scale']
+            if sl:
+                return {"coq": scale_raise_term(sl[0], True), "features": dict(feats, zero_bound=True),
+                        "nontrivial": False, "py_fail": None, "observed": {"raised": feats["raised"]}}
         # PolyFixedVariableComposite whose child returned no rows while some variable is left unfixed
         for i, l in enumerate(c["layers"]):
             if l["t"] == 'fixed' and l.get("fixed") and recs[i + 1].calls and not recs[i + 1].calls[-1][1]["rows"] \
@@ -1011,10 +1036,7 @@ def run_poly(c):
                 lr = parse_range(br)
                 pr = parse_range(l["poly_range"]) if l.get("poly_range") is not None else lr
                 ign = clist([clist([cnat(T.idx(dec_label(x))) for x in t]) for t in (l.get("ignored") or [])])
-                def rng_term(x):
-                    if isinstance(x, list):
-                        return f"(RPair {cq(Fraction(x[0]))} {cq(Fraction(x[1]))})"
-                    return f"(RNum {cq(Fraction(x))})"
+                out_terms.append(scale_raise_term(l, False))
                 prt = "None" if l.get("poly_range") is None else f"(Some {rng_term(l['poly_range'])})"
                 k = (f"(KScale {orig} {sc} {rng_term(br)} {prt} {ign} {sent})")
             elif l["t"] == 'fixed':
@@ -1029,8 +1051,9 @@ def run_poly(c):
                 child = bqm_rec.calls[-1][2]
                 pv = clist([cnat(T.idx(v)) for v in inner_vars])
                 redt = clist([f"({cnat(T.idx(u))}, {cnat(T.idx(v))}, {cnat(T.idx(p))})" for u, v, p in red])
-                out_terms.append(f"(CComp (KPolymorph {hp_term(T, inner_terms)} {pv} {redt} {cbool(keep)} "
-                                 f"{cbool((not c['hoc']['defaults']) and c['hoc']['discard'])}) "
+                kd = ("None", "None") if c["hoc"]["defaults"] else (f"(Some {cbool(c['hoc']['keep'])})",
+                                                                    f"(Some {cbool(c['hoc']['discard'])})")
+                out_terms.append(f"(CComp (KPolymorph {hp_term(T, inner_terms)} {pv} {redt} {kd[0]} {kd[1]}) "
                                  f"{res_term(T, child)} {res_term(T, outs[-1])})")
         else:
             order = inner_vars
@@ -1140,10 +1163,8 @@ def run_cqm(c):
         vt = cqm.vartype(v).name
         if vt == 'INTEGER':
             lb, ub = F(cqm.lower_bound(v)), F(cqm.upper_bound(v))
-            if lb.denominator == 1 and ub.denominator == 1:
-                d = f"(DInt {cz(int(lb))} {cz(int(ub))})"
-            else:
-                d = f"(DIntQ {cq(lb)} {cq(ub)})"
+            d = f"(DIntQ {cq(lb)} {cq(ub)})"       # enumerated by the generated range(ceil(lb), floor(ub)+1) rule
+            if lb.denominator != 1 or ub.denominator != 1:
                 frac = True
         else:
             d = dom_term(vt)
